@@ -960,7 +960,8 @@ entry("C20", modules=["contracts.c20_calc"],
           "check_dims_and_indices", "mutinf_subsys", "mutinf", "schmidt_gap", "partial_transpose_norm", "logneg", "negativity",
           "logneg_subsys", "one_way_classical_information", "quantum_discord", "correlation", "qid", "ent_cross_matrix",
           "simulate_counts", "dephase", "kraus_op", "projector", "measure", "purify", "concurrence")] +
-         [f"{_C20A}::gen_bipartite_spectral_fn.bipartite_spectral_fn", f"{_C20A}::lazy_ptr_linop", f"{_C20A}::lazy_ptr_ppt_linop"],
+         [f"{_C20}::logneg_subsys#all-n",  # second contract on logneg_subsys: the renumbering loop for a SYMBOLIC number of subsystems
+          f"{_C20A}::gen_bipartite_spectral_fn.bipartite_spectral_fn", f"{_C20A}::lazy_ptr_linop", f"{_C20A}::lazy_ptr_ppt_linop"],
       LEMMAS=True,
       PROVIDERS=["contracts.c20_calc.provider_fdx"],
       TRUSTED=[
@@ -996,7 +997,8 @@ entry("C20", modules=["contracts.c20_calc"],
           "STRUCTURE BOUND (value-unbounded): the number of subsystems K is fixed per case and all dimensions (>= 1), "
           "thresholds, ranks and scalar parameters are symbolic: bipartite_spectral_fn, schmidt_gap, mutinf, "
           "partial_transpose_norm K<=4 with every (non-empty) subset A; mutinf_subsys, logneg_subsys K<=4 with every pair of "
-          "disjoint non-empty subsets (A, B); lazy_ptr_linop K<=4 / lazy_ptr_ppt_linop K<=4 with sorted and reversed index "
+          "disjoint non-empty subsets (A, B) -- plus, for logneg_subsys, the renumbering loop of the exact route for a "
+          "SYMBOLIC number of subsystems (membership arrays; route conditions uninterpreted there); lazy_ptr_linop K<=4 / lazy_ptr_ppt_linop K<=4 with sorted and reversed index "
           "tuples; kraus_op K<=3 with every ordered tuple `where`; quantum_discord K<=4 with symbolic sysa != sysb; "
           "correlation 2-3 sites; qid <= 3 indices; check_dims_and_indices <= 2+2 indices; ent_cross_matrix: block size 1..3 "
           "concrete, number of sites SYMBOLIC (all sz_p); projector / measure: spectrum of SYMBOLIC size n; simulate_counts: "
@@ -1006,7 +1008,8 @@ entry("C20", modules=["contracts.c20_calc"],
           "data; A and B disjoint and non-empty; indices in range (check_dims_and_indices raises otherwise: own contract)",
           "floats are reals: an integer rand_rank and the float of the same value are distinguished by KIND (case), as "
           "python's isinstance does; dephase float kind: the proportion means int(rand_rank * d) clamped to 1..d",
-          "KNOWN FAILURES on the unchanged tree (real defects, kept): schmidt_gap index obligation when A has total "
+          "KNOWN FAILURES on the unchanged tree (real defects, contracts kept as they are; all of them discharge on the "
+          "tree repaired since -- the selftest puts each defect back as a mutant): schmidt_gap index obligation when A has total "
           "dimension 1 and B not (C20-c); simulate_counts label base (E1 and fdx, C20-e); dephase integer rand_rank = 1 "
           "(C20-f); quantum_discord first / measured party vs (sysa, sysb) (C20-g); correlation(sparse=True, dense "
           "operators covering the whole system) on the fdx grid (C20-k)",
@@ -1030,19 +1033,19 @@ entry("C20", modules=["contracts.c20_calc"],
                   "partial_transpose_norm work on A or its complement (constant only when a side is trivial, approximate "
                   "route iff the threshold is reached by the chosen side), mutinf(_subsys) = S(A)+S(B)-S(AB) of the same "
                   "state and dims with the options passed on, logneg_subsys hands logneg the kept dims in index order and "
-                  "A's positions among the kept, quantum_discord's pair state with sysa first and sysb measured (FAILS: "
-                  "C20-g), one_way_classical_information measures the second party, correlation / qid embed each operator "
+                  "A's positions among the kept, quantum_discord's pair state with sysa first and sysb measured (FAILED on the "
+                  "unchanged tree: C20-g), one_way_classical_information measures the second party, correlation / qid embed each operator "
                   "at its own site, ent_cross_matrix block arithmetic for ALL numbers of sites (skolem pair / entry, array "
                   "accesses in range, upscaling), simulate_counts draws C samples of range(phys_dim**n) with the Born "
-                  "probabilities and labels them in base phys_dim with n digits (base FAILS: C20-e), dephase reads an integer "
-                  "rand_rank as a count and a float as a proportion (FAILS for the integer 1: C20-f), kraus_op's two "
+                  "probabilities and labels them in base phys_dim with n digits (base FAILED on the unchanged tree: C20-e), dephase reads an integer "
+                  "rand_rank as a count and a float as a proportion (FAILED for the integer 1 on the unchanged tree: C20-f), kraus_op's two "
                   "contractions as index calculus for every ordered `where`, projector includes exactly the columns within "
                   "tol once (all n), measure pairs probability / eigenvalue / projector / normalisation, the lazy partial-trace "
                   "operators sum exactly the traced axes and transpose exactly A; schmidt_gap reads a second eigenvalue that "
-                  "does not exist when A is trivial (FAILS: C20-c).  fdx / E4: simulate_counts labels on every basis state, "
+                  "does not exist when A is trivial (FAILED on the unchanged tree: C20-c).  fdx / E4: simulate_counts labels on every basis state, "
                   "pauli_decomp enumerates every Pauli string once with coefficient tr(Pa)/2^n (matrix units, n<=3; "
                   "normalisation * 2^n == 1 for all n), pauli_correlations letter/site pairing, correlation with the real "
-                  "ikron on a complete small grid (sparse=True with dense operators covering the system FAILS: C20-k).")
+                  "ikron on a complete small grid (sparse=True with dense operators covering the system FAILED on the unchanged tree: C20-k).")
 
 
 # ---- C08, second part: the remaining record-threading carriers and the MPS circuit classes (contracts/c08_more.py) ----
@@ -1126,3 +1129,173 @@ entry_extend(
                 "CircuitPermMPS / CircuitMPSLazy that touch gate_opts['info'] (plus apply_gates with the class invariant as "
                 "loop invariant and partial_trace / get_psi, by dynamic class of the receiver): class invariant "
                 "Sound(gate_opts.info, _psi).")
+
+
+# ---- C10 / C09 / C12, sweep discipline (contracts/c10_sweeps.py): moving environments, sweep order + gauge, bond schedule;
+# ---- 1D compression sweeps; 2D interleaved boundary bookkeeping and cap threading
+_SW = "contracts.c10_sweeps"
+_T2D = "quimb/tensor/tn2d/core.py"
+_SW_TRUSTED_COMMON = [
+    "E1 engine extensions used by contracts/c10_sweeps.py (all opt-in, additive): on_dict / on_listcomp hooks (abstract value "
+    "for a dict display with a symbolic key / for a filter comprehension whose 2**len outcomes are irrelevant), ev_Set (set "
+    "display of concrete elements), Loop.exact_last (python value of a for-loop variable AFTER the loop: last item, or the "
+    "previous binding / unbound after zero iterations)",
+    "callee effects written as array DEFINITIONS (z3 lambda terms) instead of quantified assumptions where stated in the "
+    "contract (CompressSweep.apply): the defined state is the strongest one satisfying the proved ensures of the callee",
+]
+entry_extend(
+    "C10", modules=[_SW],
+    E1=[f"{_DM}::MovingEnvironment.{m}" for m in ("site_tag", "init_non_segment", "init_segment", "__init__", "move_right",
+                                                   "move_left", "move_to", "__call__")]
+    + [f"{_DM}::DMRG.{m}" for m in ("_set_bond_dim_seq", "_set_cutoff_seq", "_canonize_after_1site_update",
+                                     "_update_local_state", "sweep", "sweep_right", "sweep_left", "solve")]
+    + [f"{_DM}::DMRG1._update_local_state_1site", f"{_DM}::DMRG2._update_local_state_2site"],
+    TRUSTED=_SW_TRUSTED_COMMON + [
+        "tensor contractions are opaque: an environment network is abstracted to (free site block, number of _LEFT / _RIGHT "
+        "tensors, sites they stand for); leaf algebra: env | tnc.select(site) adds an ADJACENT site; env | end piece adds a "
+        "_LEFT / _RIGHT standing for exactly the sites beside the block (never a second one); env ^ (end tag, site tag) / "
+        "env.select([end tag, site tag], which='any') ^ all contracts the end tensor with the ADJACENT free site; a virtual "
+        "copy has the same content; Tensor(tags='_LEFT'|'_RIGHT') is a scalar dummy standing for no site; "
+        "site_tag_id.format(j) is the tag of site j",
+        "definitional facts of python floor division / modulo by a positive symbolic divisor (q = 0, r = a for 0 <= a < b, "
+        "...) are assumed where `% self.L` is evaluated (exact where they apply)",
+        "FRESHNESS (not mechanised): the contracted _LEFT / _RIGHT pieces of envs[k] are snapshots; they are up to date because "
+        "a sweep only modifies sites inside the current block (and, for bsz = 1, the next site of the sweep direction), never a "
+        "site already absorbed into the environment of a later position",
+        "leaf [itertools]: chain(seq, repeat(x)) yields seq[k] for k < len(seq) and x afterwards; cycle(s) yields items of s; "
+        "next(it) returns the item at the iterator's position and advances it by one",
+        "leaf [C05 / DESIGN 1.5]: T_AB.split(left_inds, right_inds, get='arrays', absorb, max_bond=m, ...) returns (L, R) with L "
+        "a left isometry for absorb='right', R a right isometry for absorb='left', new bond <= m; Tensor.modify(data=...) "
+        "replaces one site tensor and nothing else; a local eigenvector written to a site carries no isometry claim",
+        "leaf: left_/right_canonize_site, left_/right_canonize with bra=self._b: the proved C08 contracts (bra=None) are used "
+        "and the bra is assumed to receive the conjugate of the same data (obligation: bra=self._b IS passed)",
+        "leaf: form_local_ops builds Heff / Neff from ME_eff_ham() at its current position (label level proved in "
+        "contracts/c09_labels.py); _eigs solves ONE local eigenproblem; post_check / _print_* / _compute_post_sweep / "
+        "_check_convergence do not touch the state",
+        "ASSUMPTION: MatrixProductState.expand_bond_dimension(new_bond_dim, rand_strength=eps, bra=...) keeps isometries "
+        "(exactly when no bond grows or eps = 0; up to the noise eps = opts['bond_expand_rand_strength'] = 1e-6 otherwise): "
+        "DMRG1's canonical form between alternating sweeps is exact only up to that noise",
+    ],
+    ASSUMPTIONS=[
+        "open boundary only (cyclic=False, not segmented); MovingEnvironment: L >= bsz >= 1 with bsz SYMBOLIC; the whole chain "
+        "is one segment range(0, L-bsz+1) (what __init__ passes; proved as call-pre); move_right only on an environment begun at "
+        "the left, move_left only on one begun at the right, move_to(i) only AWAY from the begin side (a move back towards the "
+        "begin side adds a second _RIGHT / _LEFT tensor: native ValueError 'index appears more than twice' on contraction -- "
+        "DMRG never does this: proved as call-pre in _update_local_state / sweep)",
+        "DMRG: bsz in {1, 2} (the dispatch table), direction in {'R','L'} / {'right','left'}, verbosity = 0 (progress bar not "
+        "interpreted), options enumerated as given (max_bond, cutoff, cutoff_mode, method) | none; the sweep comprehension "
+        "[self._update_local_state(i, ...) for i in sweep] is cut by an invariant like a loop",
+        "solve: bond_dims / cutoffs None | scalar | sequence of symbolic length >= 1; sweep_sequence None | a string over "
+        "{L, R} of arbitrary content (every next() is L or R); suppress_warnings True | False; max_sweeps >= 0",
+        "schedule kinds: bond_dims int | non-empty sequence of ints (documented domain; numpy integers are not `int` and are "
+        "rejected natively with TypeError); cutoffs float | non-empty sequence | python int (the last one FAILS: finding)",
+        "the ghost `capd` (bond k was last written by a split that received the sweep's max_bond, hence <= max_bond) says "
+        "nothing about bonds the sweep never splits: DMRG1 (no split) is outside it (known finding C10-c)",
+    ],
+    BOUNDED_FOR={
+        "MovingEnvironment.init_segment": ["DMRG: reported energy == psi^dag H psi"],
+        "MovingEnvironment.__init__": ["DMRG: reported energy == psi^dag H psi"],
+        "MovingEnvironment.move_right": ["DMRG: reported energy == psi^dag H psi"],
+        "MovingEnvironment.move_left": ["DMRG: reported energy == psi^dag H psi"],
+        "MovingEnvironment.move_to": ["DMRG: reported energy == psi^dag H psi"],
+        "MovingEnvironment.__call__": ["DMRG: reported energy == psi^dag H psi"],
+        "DMRG.sweep": ["DMRG: the returned state is normalised", "DMRG: bond dimension of the state <= the scheduled cap"],
+        "DMRG.solve": ["DMRG: bond dimension of the state <= the scheduled cap", "DMRG: the returned state is normalised"],
+        "DMRG._set_bond_dim_seq": ["DMRG: bond dimension of the state <= the scheduled cap"],
+        "DMRG._set_cutoff_seq": ["DMRG: bond dimension of the state <= the scheduled cap"],
+        "DMRG._update_local_state": ["DMRG: the returned state is normalised"],
+        "DMRG1._update_local_state_1site": ["DMRG: the returned state is normalised"],
+        "DMRG2._update_local_state_2site": ["DMRG: the returned state is normalised",
+                                            "DMRG: bond dimension of the state <= the scheduled cap"],
+        "DMRG._canonize_after_1site_update": ["DMRG: the returned state is normalised"]},
+    EXPLANATION="E1 (sweep discipline, contracts/c10_sweeps.py): MovingEnvironment on open chains for symbolic L and bsz: "
+                "init_segment establishes, and move_right / move_left / move_to keep, the class invariant (envs[k] exists "
+                "exactly for 0 <= k <= L-bsz, free block [k,k+bsz), prepared far-side environments, near-side environments "
+                "up to pos), every index stays in [0, L-bsz] / [0, L), envs[k] is only read where stored, move_to terminates, "
+                "and ME() is built from exactly the sites < pos (left) and >= pos+bsz (right) [regression guard for finding C10-d: a read of the "
+                "loop variable after an empty loop is the obligation no-raise-UnboundLocalError]. DMRG: _set_bond_dim_seq / "
+                "_set_cutoff_seq: the k-th next() returns bds[min(k, len-1)]; solve: sweep number t receives item k0+t of "
+                "both schedules, as does DMRG1's expand_bond_dimension; canonize = not (direction+previous in {LR, RL}) "
+                "always meets the gauge precondition of sweep; sweep: visits exactly positions 0..L-bsz in order (reversed "
+                "for L), at every local eigenproblem the sites < i are left- and the sites >= i+bsz right-isometric, the "
+                "environment is begun on the start side and moved forward only, options reach the split unchanged, "
+                "absorb follows the direction, afterwards left- / right-canonical and (bsz = 2) every bond <= max_bond.")
+
+entry_extend(
+    "C09", modules=[_SW],
+    E1=[f"{_T1}::set_default_compress_mode"]
+    + [f"{_T1}::TensorNetwork1DFlat.{m}" for m in ("left_compress_site", "right_compress_site", "left_compress",
+                                                    "right_compress", "compress")],
+    TRUSTED=_SW_TRUSTED_COMMON + [
+        "leaf [C05 + reading of tensor_core.tensor_compress_bond]: tensor_compress_bond(tl, tr, absorb, reduced, max_bond, "
+        "cutoff, ...) on neighbours (tl left of tr) leaves the bond between them <= max_bond and touches no other tensor; the "
+        "non-absorbing tensor is isometric: absorb='right' & reduced != 'right' -> tl left-isometric; absorb='left' & reduced "
+        "!= 'left' -> tr right-isometric; otherwise neither (reduced='left' / 'right' decompose ONE tensor only)",
+        "leaf [QR]: left_/right_canonize_site (proved C08 contracts) never increase a bond dimension: the ghost `capd` (bond "
+        "(k,k+1) was last compressed by a call that received exactly the caller's max_bond / cutoff, hence <= max_bond) "
+        "survives canonization",
+    ],
+    ASSUMPTIONS=[
+        "1D compression sweeps: open boundary (cyclic=False), bra=None, create_bond=False; options enumerated as none | "
+        "{max_bond, cutoff} | {max_bond, cutoff, absorb='both'}; start / stop None | int with the swept range inside the chain; "
+        "compress(form): form None | 'left' | 'right' | 'flat' | int c with 0 <= c < L | any other value (must raise)",
+        "the truncation is optimal (and the error bound of C05 applies) only because compress(form) canonizes towards the far "
+        "side first: that is the gauge argument of C08, not restated here",
+    ],
+    BOUNDED_FOR={
+        "TensorNetwork1DFlat.compress": ["compress(form): unchanged when untruncated, bonds <= cap, promised canonical centre"],
+        "TensorNetwork1DFlat.left_compress": ["compress(form): unchanged when untruncated, bonds <= cap, promised canonical centre"],
+        "TensorNetwork1DFlat.right_compress": ["compress(form): unchanged when untruncated, bonds <= cap, promised canonical centre"],
+        "TensorNetwork1DFlat.left_compress_site": ["compress_site(i): unchanged when cap >= bond dimension"],
+        "TensorNetwork1DFlat.right_compress_site": ["compress_site(i): unchanged when cap >= bond dimension"],
+        "set_default_compress_mode": ["compress(form): unchanged when untruncated, bonds <= cap, promised canonical centre"]},
+    EXPLANATION="E1 (cap threading + canonical form, contracts/c10_sweeps.py): left_/right_compress_site hand every caller "
+                "option to exactly one tensor_compress_bond on the bond next to i and only ADD defaults (absorb, reduced, "
+                "cutoff_mode); left_/right_compress: loop invariant over the swept prefix (every swept bond compressed with "
+                "exactly the caller's max_bond / cutoff, swept sites isometric, frame outside); compress(form): EVERY bond "
+                "(k,k+1), 0 <= k < L-1 is compressed with the caller's options for every form ('flat': the two half sweeps "
+                "meet at L//2 without gap), hence max_bond() <= cap, and the promised form holds: right / None: sites > 0 "
+                "right-isometric, left: sites < L-1 left-isometric, int c: centre at c, flat: no claim.")
+
+entry_extend(
+    "C12", modules=[_SW],
+    E1=[f"{_T2D}::TensorNetwork2D.{m}" for m in ("_contract_interleaved_boundary_sequence", "contract_boundary",
+                                                  "contract_boundary_from", "_contract_boundary_core")],
+    TRUSTED=_SW_TRUSTED_COMMON + [
+        "DECLARED value-preserving operations (exact when untruncated; their numerical content is what the C12 drivers check): "
+        "contract_boundary_from_(xrange, yrange, from_which=d, ...) contracts the boundary row / column d of the current "
+        "extent into its inner neighbour and compresses (extent shrinks by one on side d); equalize_norms_() redistributes "
+        "norms / the stored exponent; contract(**opts) is the final exact contraction; contract_((tag1, tag2), which='any'), "
+        "contract_between, `self ^= tag` contract tensors; canonize_plane / compress_plane / _compress_between_tids are "
+        "gauge moves / truncations with the given cap",
+        "leaf: get_ranges_present() returns non-empty coordinate ranges; parse_boundary_sequence returns a tuple of strings "
+        "from {xmin, xmax, ymin, ymax} of any length; utils.ensure_dict(x) = {} for None, else a dict COPY; Rotator2D(tn, "
+        "xrange, yrange, from_which): plane = from_which[0], sweep over the plane coordinate from the starting side inwards "
+        "(istep = +1 from 'min', -1 from 'max'), sweep_other over the sorted other range, site_tag(i, j) a tag",
+        "the direction queue of the handler is abstracted to its LENGTH (content: arbitrary directions); the filter "
+        "comprehension before the loop returns an arbitrary sub-list",
+    ],
+    ASSUMPTIONS=[
+        "_contract_interleaved_boundary_sequence: max_separation >= 0; borders all given (xmin <= xmax, ymin <= ymax) | all "
+        "automatic; sequence None | given; around None | a non-empty collection; inplace True | False; (equalize_norms, "
+        "strip_exponent, final_contract) in {(auto,F,T), (auto,T,T), (True,F,F), (False,T,T)}; progbar off",
+        "contract_boundary / contract_boundary_from: mode in {mps, full-bond} resp. {mps, full-bond, projector2d, any 1D "
+        "method name}; extra options none | two; _contract_boundary_core: from_which each of the four sides, compress_late "
+        "True | False, max_bond int | None, layer_tags None | two tags, caller's compress_opts with / without its own absorb",
+    ],
+    BOUNDED_FOR={
+        "TensorNetwork2D._contract_interleaved_boundary_sequence": ["contract_boundary (2D)"],
+        "TensorNetwork2D.contract_boundary": ["contract_boundary (2D)"],
+        "TensorNetwork2D.contract_boundary_from": ["contract_boundary_from_{xmin,xmax,ymin,ymax}"],
+        "TensorNetwork2D._contract_boundary_core": ["contract_boundary (2D)", "contract_boundary_from_{xmin,xmax,ymin,ymax}"]},
+    EXPLANATION="E1 (bookkeeping + cap threading, contracts/c10_sweeps.py): _contract_interleaved_boundary_sequence: loop "
+                "invariant separations[d] == boundaries[dmax] - boundaries[dmin] and boundaries == the extent of the working "
+                "network (ghost extent advanced by the leaf); every range handed to contract_boundary_from_ is the current "
+                "boundary line and its inner neighbour, inside the extent, over the full other extent; opposing boundaries "
+                "never get closer than max_separation; the while loop terminates (measure: excess separations + queue "
+                "length); every operation acts on the working network (receiver iff inplace) and is a declared "
+                "value-preserving one; contract_boundary_opts reach every call unchanged; equalize_norms='auto' resolution, "
+                "final-contract defaults. contract_boundary / contract_boundary_from: max_bond, cutoff and every other option "
+                "reach the handler / the boundary method of the mode unchanged. _contract_boundary_core: every "
+                "_compress_between_tids / compress_plane call receives the caller's max_bond, cutoff, equalize_norms and "
+                "compress_opts (+ default absorb only) [max_bond=None with compress_late=False FAILS: int > None].")
